@@ -475,7 +475,11 @@ class PolyInterp:
                 self.val[i] = self.fn_atom(op.upper(), *sorted([a, b], key=repr))
         elif op in ("zext", "sext", "trunc"):
             a = self.operand(ops[0])
+            sw = ops[0].get("bits") or self.width_of(ops[0])
             if op == "sext":
+                # atoms narrower than 32 bits denote their unsigned value (see zext); wider ones their signed value
+                self.val[i] = a if (sw >= 32 or a.is_const()) else self.fn_atom("SEXT%d" % sw, a)
+            elif op == "zext" and sw < 32 and not a.is_const() and (self.is_boolpoly(a) or (len(a.t) == 1 and list(a.t.items())[0] == ((list(a.t)[0][0],) if list(a.t)[0] else (), 1) and len(list(a.t)[0]) == 1)):
                 self.val[i] = a
             elif op == "zext":
                 if a.is_const():
@@ -715,6 +719,8 @@ class PolyInterp:
         if o["k"] == "v":
             inst = self.inst_of.get(o["id"])
             return inst["type"].get("bits", 64) if inst else 64
+        if o["k"] == "arg":
+            return self.fn["args"][o["idx"]]["type"].get("bits", 64)
         return 64
 
     def topo(self):
